@@ -323,8 +323,22 @@ func (m *MuxMon) Step(h *MuxH, i int) (vs []Viol) {
 
 	// ---- ES packets of a WriteData call -------------------------------------------------
 	es := ps[nt:]
-	if len(es) == 0 {
+	if len(es) == 0 && len(c.Payload) > 0 {
 		add("C04", "no-pes-packets", "successful WriteData produced no PES packet")
+	}
+	if len(c.Payload) == 0 {
+		// no PES data: the library writes nothing for the stream itself (payload lengths >= 1 are the domain
+		// of the round trip, C01); whatever it writes must still be whole, decodable packets of that PID,
+		// and a packet without payload must not take a continuity counter value
+		for k, p := range es {
+			if p.PID != c.PID {
+				add("C04", "foreign-pid-in-call", "packet %d has PID %#x, expected %#x", k, p.PID, c.PID)
+			}
+			if p.HasPL {
+				m.ccCheck(p, c, true, add)
+			}
+		}
+		return
 	}
 	first := true
 	for k, p := range es {
